@@ -9,13 +9,13 @@
 
    NOT covered here (see harness/c05.py, checked on the implementation by S/K):
    * "taken anticlockwise": orientation of the face walk is C01's clause (winding filter, G1);
-   * "the plaquettes adjacent to that edge" = the non-INVALID entries of
-     edges.adjacent_plaquettes[e] is C02's edge_sides clause; here adjacency is
-     "e occurs in p.edges";
+   * for the IMPLEMENTATION's tables, "the plaquettes adjacent to that edge" = the non-INVALID
+     entries of edges.adjacent_plaquettes[e] is checked by S on every bond flip (for the model's
+     tables it is C05_single_flip_adjacent_model);
    * that a periodic lattice is closed (every directed edge in a plaquette) is a hypothesis of
      the parity theorems (it fails e.g. when a face winds around the torus and is filtered). *)
 From Coq Require Import List ZArith Bool Arith Permutation.
-From Koala Require Import Model.Lattice Model.Flux Proofs.FluxFacts Proofs.FluxLattice.
+From Koala Require Import Model.Lattice Model.Flux Proofs.FluxFacts Proofs.FluxLattice Proofs.FluxAdjacent.
 Import ListNotations.
 Open Scope Z_scope.
 
@@ -116,6 +116,23 @@ Theorem C05_single_flip_local_model :
   /\ (~ In e (p_edges p) -> flux_real (flip_at e u) p = flux_real u p).
 Proof. exact flux_real_flip_model. Qed.
 Print Assumptions C05_single_flip_local_model.
+
+(* clause 5 with adjacency read off the table edges.adjacent_plaquettes of the lattice model: on every
+   well-formed lattice without self-loops, flipping u[e] negates the flux of plaquette q iff q is one
+   of the two (non-INVALID) entries of edges_plaquettes[e], and leaves it unchanged otherwise
+   (C02's edge_sides lemma ties the table to the plaquettes' edge lists) *)
+Theorem C05_single_flip_adjacent_model :
+  forall (L : lattice) (ps : list plaquette) (u : list Z) (e q : nat),
+  wf_lattice L = true -> no_self_loops L = true -> find_all_plaquettes L = Some ps ->
+  (forall f, (f < nE L)%nat -> bond u f = 1 \/ bond u f = -1) -> (q < length ps)%nat ->
+  (nth q (fluxes_real (flip_at e u) ps) 0 = - nth q (fluxes_real u ps) 0
+     <-> (fst (nth e (edges_plaquettes L ps) (None, None)) = Some q
+          \/ snd (nth e (edges_plaquettes L ps) (None, None)) = Some q))
+  /\ (~ (fst (nth e (edges_plaquettes L ps) (None, None)) = Some q
+         \/ snd (nth e (edges_plaquettes L ps) (None, None)) = Some q) ->
+      nth q (fluxes_real (flip_at e u) ps) 0 = nth q (fluxes_real u ps) 0).
+Proof. exact single_flip_adjacent_model. Qed.
+Print Assumptions C05_single_flip_adjacent_model.
 
 (* [flip_at e u] changes the sign of u[e] and nothing else *)
 Theorem C05_flip_spec : forall (u : list Z) (e f : nat),
